@@ -50,7 +50,9 @@ pub fn gen_block(rng: &mut Rng, number: u64, parent: &packed::Byte32) -> BlockVi
             packed::OutPoint::new(random_hash(rng), rng.below(4) as u32),
             0,
         );
-        let out = packed::CellOutput::new_builder().capacity(rng.next_u64()).build();
+        let out = packed::CellOutput::new_builder()
+            .capacity(rng.next_u64())
+            .build();
         let tx = TransactionBuilder::default()
             .input(input)
             .output(out)
